@@ -206,6 +206,9 @@ func trial(kind string, rng *rand.Rand) []map[string]any {
 			// everybody tries to move the register away from the same value: exactly one may win
 			callers, rounds, barrier, procs = 2+rng.Intn(3), 1, true, 6
 			ops = []string{"cas"}
+			if rng.Intn(3) == 0 {
+				ops = []string{"swap"} // every Swap returns what the one before it stored: no two the same
+			}
 		}
 		gen = func(r *rand.Rand, t, j int) opcall {
 			c := opcall{op: ops[r.Intn(len(ops))], v: 1 + r.Intn(3), o: r.Intn(4)}
